@@ -249,10 +249,16 @@ def _sig_rewrite(src, fi, ed, ret_name, new_name, log):
         ed.insert(b, ')', 'R0-ret')
 
 
+_log_missing = []
+
+
 def _apply_loop_contracts(src, ed, loops, blk, canary):
     for k, spec in blk.loops.items():
         if k >= len(loops):
-            raise LiftError(f'{src.rel}: contract names loop {k} but the function has {len(loops)} loops')
+            # the code no longer has this loop: its invariants have nothing to attach to; the function is then judged on its
+            # pre/postconditions alone (a failure there is a verdict about the new body, not about the missing loop)
+            _log_missing.append(f'loop contract {k} not applied: the lifted code has {len(loops)} loop(s)')
+            continue
         l = loops[k]
         sig = src.sig
         if spec.get('binder'):
@@ -273,6 +279,8 @@ def _apply_loop_contracts(src, ed, loops, blk, canary):
         at = meta.get('at')
         body = (txt + '\n') if meta.get('_raw') else ('proof {\n' + txt + '\n}\n')
         if 'loop' in meta:
+            if int(meta['loop']) >= len(loops):
+                continue
             l = loops[int(meta['loop'])]
             sig = src.sig
             if at == 'body_start':
@@ -707,5 +715,6 @@ def assemble(template_path, canary=False, extra_shims=None, havoc_decls=None):
             else:
                 out.append(part + ('' if last else '\n'))
                 table.append(entry)
-    meta['lift_rewrites'] = log
+    meta['lift_rewrites'] = log + ['R0 ' + x for x in _log_missing]
+    del _log_missing[:]
     return ''.join(out), table, meta
